@@ -1028,6 +1028,8 @@ impl Template {
                             .trim_end_matches("}}");
                         let t = template_stack.front_mut().unwrap();
                         t.push_element(Comment(text.to_owned()), line_no, col_no);
+                        // a comment ends the reach of a preceding `~}}`
+                        omit_pro_ws = false;
                     }
                     Rule::hbs_comment => {
                         trim_line_required = Template::process_standalone_statement(
@@ -1044,6 +1046,8 @@ impl Template {
                             .trim_end_matches("--}}");
                         let t = template_stack.front_mut().unwrap();
                         t.push_element(Comment(text.to_owned()), line_no, col_no);
+                        // a comment ends the reach of a preceding `~}}`
+                        omit_pro_ws = false;
                     }
                     _ => {}
                 }
